@@ -25,10 +25,12 @@ static void again_at_exit(void) { res_t r; memset(&r, 0, sizeof r); if (g_again)
  * registered context, and ordinary use afterwards must go on exactly as if the call had not been made (next IDs, context lookup, handler calls) */
 static int g_cb, g_cl, g_ce; static unsigned char g_id1;
 static void *count_ctx(spif_charptr_t b, void *s) { if (*b == SPIFCONF_BEGIN_CHAR) g_cb++; else if (*b == SPIFCONF_END_CHAR) g_ce++; else g_cl++; return s; }
+static unsigned char g_b1, g_f0;
 static char *g_found, g_found_copy[600];      /* what an earlier, successful file lookup handed out: it stays what it was */
 static void conf_before(void)
 {
     spifconf_init_subsystem(); g_id1 = spifconf_register_context((spif_charptr_t) "first", count_ctx);
+    g_b1 = spifconf_register_builtin("zzb0", stub_builtin); g_f0 = fstate_idx;        /* the IDs handed out next are these plus one, however many the subsystem registers for itself */
     const char *td = getenv("VERIF_SCRATCH"); char dir[400], path[500], name[40];
     snprintf(dir, sizeof dir, "%s", td ? td : "/tmp"); snprintf(name, sizeof name, "c16f-%d", (int) getpid()); snprintf(path, sizeof path, "%s/%s", dir, name);
     FILE *f = fopen(path, "w"); if (f) { fputs("x\n", f); fclose(f); }
@@ -40,10 +42,9 @@ static int conf_after(void)
 {
     static char line[] = "second some attribute";
     if (g_found && strcmp(g_found, g_found_copy)) return 7;
-    if (g_id1 != 1) return 1;
-    if (spifconf_register_context((spif_charptr_t) "second", count_ctx) != 2) return 2;
-    if (spifconf_register_builtin("zzb", stub_builtin) != 7) return 3;
-    if (spifconf_register_fstate(NULL, (spif_charptr_t) "<p>", NULL, 1, 0) != 1) return 4;
+    if (spifconf_register_context((spif_charptr_t) "second", count_ctx) != (unsigned char) (g_id1 + 1)) return 2;
+    if (spifconf_register_builtin("zzb", stub_builtin) != (unsigned char) (g_b1 + 1)) return 3;
+    if (spifconf_register_fstate(NULL, (spif_charptr_t) "<p>", NULL, 1, 0) != (unsigned char) (g_f0 + 1)) return 4;
     fstate_idx--;
     spifconf_parse_line(NULL, (spif_charptr_t) line);
     if (g_cb != 1 || g_cl != 1 || g_ce != 1) return 5;
